@@ -7,21 +7,22 @@
     Both are functions of the same node forest and of shared oracles with no assumed behaviour.
 
     FULL STATEMENT (all forests, all oracles):  strict_blocks F = false -> prom_accepts F = true.
-    It is FALSE of the faithful models and of the real pint/Prometheus pair: five machine-checked refutations
+    It is FALSE of the faithful models and of the real pint/Prometheus pair: two machine-checked refutations
     below, each with a witness file that the real pint passes and the real rulefmt.Parse refuses (known findings
-    C01-null-name, C01-nameless-group, C01-limit-not-int, C01-merge-not-alias, C01-tag-kind).
+    C01-merge-not-alias, C01-tag-kind).  Three further classes (null record/alert/expr, group without a name, limit
+    that is no Go int) were repaired in pint (d65cbbf, cc77cdd, a6b0afc): their guards and the H_int hypothesis are gone
+    from the theorem, and their former witnesses are now machine-checked to be BLOCKED by the pint model
+    (C01_fixed_witnesses_blocked).
 
     PROVED (C01_sound_partial), for every stream of documents and every oracle instance satisfying
       H_tmpl   pint's template check (ParseTest + Expand) is at least as strict as Prometheus' (ParseTest),
       H_str    a non-null scalar decodes into a Go string     (excludes explicit tags that do not resolve, bad !!binary),
-      H_int    an !!int scalar decodes into a Go int           (guard = known finding C01-limit-not-int),
       H_empty  the empty string is not a label name, is a label value and is a valid template,
     and every single document satisfying [guards_doc] — the documented fragment:
       - one root; below it only mappings tagged !!map, sequences tagged !!seq and scalars with a scalar tag other
         than !!merge: no aliases, no merge keys, no explicit collection tags (C01-merge-not-alias, C01-tag-kind),
-        no null-tagged mapping keys, null-tagged scalars spell a null;
-      - `record`, `alert`, `expr` values are not null                                   (C01-null-name);
-      - every group mapping has a `name` or a `rules` key                                (C01-nameless-group).
+        no null-tagged mapping keys, null-tagged scalars spell a null.
+    The same oracle [int_ok] (yaml.Node.Decode into a Go int) is used by pint's limit check and by the loader.
     Outside the fragment (aliases, merge keys) the property is searched by the implementation-level oracle only. *)
 From Coq Require Import List String Ascii Arith Bool NArith.
 From PintV Require Import Common.Bytes Model.Yaml Model.Parser Model.Routing Model.PromLoader
@@ -35,7 +36,6 @@ Theorem C01_sound_partial :
          (metric_ok lname_ok lvalue_ok dur_ok expr_ok tmpl_pint tmpl_prom dur_zero : string -> bool)
          (str_ok int_ok : node -> bool),
     (forall n, n_kind n = KScalar -> n_tag n <> nullTag -> str_ok n = true) ->
-    (forall n, n_kind n = KScalar -> n_tag n = intTag -> int_ok n = true) ->
     (forall s, tmpl_pint s = true -> tmpl_prom s = true) ->
     lname_ok "" = false -> lvalue_ok "" = true -> tmpl_prom "" = true ->
     forall (lines : list string) (ds : list (node * nat)) (yerr : option perror),
@@ -55,7 +55,7 @@ Theorem C01_rule_sound :
     (forall s, tmpl_pint s = true -> tmpl_prom s = true) ->
     lname_ok "" = false -> lvalue_ok "" = true -> tmpl_prom "" = true ->
     forall lines rn glabels,
-      plain_below rn -> no_null_strings rn ->
+      plain_below rn ->
       r_error (parse_rule_strict plines metric_ok lname_ok lvalue_ok lines rn) = None ->
       rule_blocks expr_ok dur_ok tmpl_pint glabels (parse_rule_strict plines metric_ok lname_ok lvalue_ok lines rn) = false ->
       exists pr, dec_rule str_ok dur_ok rn = DOk pr /\
@@ -96,15 +96,13 @@ Definition w_tag_kind : node :=
   Dc 1 1 388 [Mp "!!map" 1 1 388 [Sc "!!str" "groups" 1 1 439; Sq "!!seq" 2 1 388 [Mp "!!map" 2 3 388
     [Sc "!!str" "name" 2 3 439; Sc "!!str" "g" 2 9 439; Sc "!!str" "rules" 3 3 439; Sc "!!seq" "foo" 3 10 439]]]].
 
-Theorem C01_sound_refuted_null_name : refutes w_null_record /\ refutes w_null_expr.
+(** The three repaired classes: the former counterexamples are now blocked by the pint model (and still refused by the
+    Prometheus model), so they no longer refute anything; a regression of d65cbbf / cc77cdd / a6b0afc flips these. *)
+Definition now_blocked (d : node) : Prop := model_blocks (mk d 0) = true /\ model_prom (mk d 0) = false.
+Theorem C01_fixed_witnesses_blocked :
+  now_blocked w_null_record /\ now_blocked w_null_expr /\ now_blocked w_nameless_group /\ now_blocked w_limit.
 Proof. vm_compute. repeat split. Qed.
-Print Assumptions C01_sound_refuted_null_name.
-Theorem C01_sound_refuted_nameless_group : refutes w_nameless_group.
-Proof. vm_compute. repeat split. Qed.
-Print Assumptions C01_sound_refuted_nameless_group.
-Theorem C01_sound_refuted_limit_not_int : refutes w_limit.
-Proof. vm_compute. repeat split. Qed.
-Print Assumptions C01_sound_refuted_limit_not_int.
+Print Assumptions C01_fixed_witnesses_blocked.
 Theorem C01_sound_refuted_merge_not_alias : refutes w_merge.
 Proof. vm_compute. repeat split. Qed.
 Print Assumptions C01_sound_refuted_merge_not_alias.
